@@ -36,12 +36,17 @@ def main():
     caught = sum(1 for b in breaks.B if res.get(b["id"], {}).get("status") == "caught")
     out += ["", f"{caught} of {len(breaks.B)} breaks caught by the quick tier of the named check.", "",
             "### 12.2 Independently written changes (sub-agents given only the property text; seeded/<id>/)", "",
-            "| seeded change | breaks | needs, to manifest | confirmed (demo fails with / passes without, suite green) | checks run → result |",
+            "| seeded change | breaks | needs, to manifest | confirmed (demo fails with / passes without, suite green) | checks run against the scratch worktree → result / patch applied to /repo itself → result |",
             "|---|---|---|---|---|"]
     for mp in sorted(glob.glob(os.path.join(ROOT, "seeded", "*", "meta.json"))):
         m = json.load(open(mp))
         checks = "; ".join(f"{k}: {'CAUGHT ' + clause_of((v['violations'] or [''])[0]) if v['exit'] == 1 else 'missed (exit %s)' % v['exit']}"
                            for k, v in m.get("checks", {}).items())
+        onrepo = "; ".join(f"{k}: {'CAUGHT' if v['exit'] == 1 else 'missed (exit %s)' % v['exit']}"
+                           for k, v in (m.get("applied_to_repo") or {}).items())
+        if m.get("obsolete"):
+            onrepo = "obsolete on the current tree (equivalent since a later fix; see meta.json)"
+        checks += f" / on /repo: {onrepo or 'not run'}"
         out.append(f"| {m['id']} | {m.get('property', m['id'][:3])} | {m.get('needs', '')} | "
                    f"{'yes' if m.get('confirmed') else 'NO'} ({m.get('demo_exit_with_change')}/{m.get('demo_exit_without_change')}, "
                    f"{(m.get('suite_summary_with_change') or ['?'])[0][:40]}) | {checks} |")
